@@ -291,6 +291,9 @@ func c08Selection(c *core.Ctx) {
 	sel := make([][]int, nd)
 	for i := range dims {
 		dims[i] = c.R.IntRange(1, 8)
+		if nd > 1 && c.R.Bool(0.06) {
+			dims[i] = 0 // a dataset with an axis of extent zero (the states table of stateless models)
+		}
 		if c.R.Bool(0.25) {
 			sel[i] = nil
 			continue
@@ -325,7 +328,16 @@ func selection[T Num](c *core.Ctx, io *IOBackend[T], b *Backend[T], sc selCase) 
 	full := b.FromSlice(buf, cpInts(sc.Dims))
 	file := c08File(c, "sel")
 	defer os.Remove(file)
-	if err := io.Write(file, "/d", full); err != nil {
+	if n == 0 {
+		// Write inspects element 0 to choose the dataset type; datasets with an axis of extent zero are made with Create
+		// (which is how ow-sim makes the states table of stateless models)
+		c.Tag("sel:zero-extent-dataset")
+		var fill T
+		if err := io.Create(file, "/d", cpInts(sc.Dims), fill, false); err != nil {
+			c.Violate("roundtrip-error", model, "Create of a dataset with a zero extent: "+err.Error())
+			return
+		}
+	} else if err := io.Write(file, "/d", full); err != nil {
 		c.Violate("roundtrip-error", model, err.Error())
 		return
 	}
@@ -382,6 +394,9 @@ func selection[T Num](c *core.Ctx, io *IOBackend[T], b *Backend[T], sc selCase) 
 		c.Count("empty_selections", 1)
 		if err == nil && got != nil && prod(got.Shape()) != 0 {
 			c.Violate("selection-empty", model, fmt.Sprintf("selection %v of a dataset of shape %v is empty but Load returned shape %v", sc.Sel, sc.Dims, got.Shape()))
+		} else if err == nil && got != nil && !sameShape(got.Shape(), cnt) {
+			// an empty result still has the shape of the in-memory slice (callers size their loops by it)
+			c.Violate("selection-shape", model, fmt.Sprintf("selection %v of a dataset of shape %v: loaded shape %v, the in-memory slice [start:stop:step] has shape %v", sc.Sel, sc.Dims, got.Shape(), cnt))
 		}
 		return
 	}
